@@ -89,6 +89,7 @@ def _mk_defaults(kind, R):
         elif kind == "rank-one":
             v = w.arr("vf", *B, "D")
             f = F.OneRankFactor(v=v)                                       # REAL
+            w.raises("v-missing-refused", (AttributeError, TypeError), lambda: F.OneRankFactor(v=None, g=w.pos("gf", *B)))
             view = dict(L=xp.einsum("ri,rj->rij", v, v), nu=None, lb=0.0 * v[:, 0])
         elif kind == "linear":
             nu = w.arr("nf", *B, "D")
@@ -111,7 +112,25 @@ def _mk_defaults(kind, R):
     return ob
 
 
+def _mk_elementwise(kind):
+    """evaluate_ln(x, element_wise=True): component r at point r (N == R), refused for N != R"""
+    def ob(w):
+        xp = w.xp
+        f, fv = gen_factor(w, kind, "f", "R1", "D")
+        x = w.arr("x", "R1", "D")
+        val = f.evaluate_ln(x, element_wise=True)                         # REAL [R]
+        full = view_lnf(w, fv, x, "R1")                                   # [R, R]
+        w.equal("value=diagonal of the full table", val, xp.diagonal(full))
+        w.equal("evaluate=exp", f.evaluate(x, element_wise=True), xp.exp(xp.diagonal(full)))
+        xbad = w.arr("xb", "N", "D")
+        w.raises("N!=R-refused", (ValueError,), lambda: f.evaluate_ln(xbad, element_wise=True))
+    return ob
+
+
 def _register():
+    for kind in ("general", "rank-one", "linear", "constant", "measure", "pdf"):
+        REG.ob(f"evaluate_ln-element_wise/{kind}", sorts=["R1", "N", "D"],
+               funcs=["factor.ConjugateFactor.evaluate_ln", "factor.ConjugateFactor.evaluate"])(_mk_elementwise(kind))
     for kind in ("general", "rank-one", "linear", "measure", "diag-measure"):
         for R in ("R2", 1):
             REG.ob(f"ctor-defaults/{kind}/R={R}", sorts=["R1"] + (["R2"] if R != 1 else []) + ["D", "N"],
